@@ -220,9 +220,12 @@ def run_model(lines, timeout=1800):
     return out
 
 
+SHARD_MIN_LINES = 2000      # a check whose lines are few but heavy lowers this (process-local)
+
+
 def run_model_sharded(lines, shards=12, timeout=3000):
     """Same as run_model but split over processes (order preserved)."""
-    if len(lines) < 2000 or shards <= 1:
+    if len(lines) < SHARD_MIN_LINES or shards <= 1:
         return run_model(lines, timeout)
     from concurrent.futures import ThreadPoolExecutor
     n = (len(lines) + shards - 1) // shards
